@@ -1578,6 +1578,16 @@ func hasCaseInsensitiveUnicode(re *syntax.Regexp) bool {
 //
 //nolint:cyclop // Strategy selection has many cases by design
 func SelectStrategy(n *nfa.NFA, re *syntax.Regexp, literals *literal.Seq, config Config) Strategy {
+	// A partial-coverage sequence lost the literals of some alternatives (MaxLiterals
+	// or cross-product overflow), so it is not a set of required prefixes: no prefilter
+	// is built from it (see CompileRegexp) and the pattern may even match the empty
+	// string although every literal is non-empty. Treat it as "no literals"; otherwise
+	// "good literals" would route e.g. `(?:ab|cd|ef){2}x|\b` past the canMatchEmpty
+	// guards to the lazy DFA.
+	if literals.IsPartialCoverage() {
+		literals = nil
+	}
+
 	// Check for end-anchored patterns (highest priority optimization)
 	// Pattern must:
 	//   1. Be anchored at end ($ or \z)
